@@ -171,3 +171,45 @@ def unmarshal_outcome(data):
     except Exception as exc:  # noqa
         return ('other-exc', exc)
     return ('ok', consumed, channel, obj)
+
+
+class _Sink(__import__('logging').Handler):
+    """Formats every record (as a real handler would) and drops it."""
+
+    def emit(self, record):
+        try:
+            record.getMessage()
+        except Exception:  # noqa  (logging itself swallows these, too)
+            pass
+
+
+import contextlib as _contextlib
+
+
+@_contextlib.contextmanager
+def debug_logging():
+    """The process environment of an application that has switched debug
+    logging on: level DEBUG on the root and on every pamqp logger, a handler
+    that formats each record.  Restored on exit."""
+    import logging
+    root = logging.getLogger()
+    names = [n for n in list(logging.root.manager.loggerDict)
+             if n == 'pamqp' or n.startswith('pamqp.')] + ['pamqp']
+    saved = [(logging.getLogger(n), logging.getLogger(n).level)
+             for n in names]
+    saved_root = root.level
+    saved_disable = logging.root.manager.disable
+    sink = _Sink()
+    root.addHandler(sink)
+    root.setLevel(logging.DEBUG)
+    for lg, _lvl in saved:
+        lg.setLevel(logging.DEBUG)
+    logging.disable(logging.NOTSET)
+    try:
+        yield
+    finally:
+        logging.disable(saved_disable)
+        for lg, lvl in saved:
+            lg.setLevel(lvl)
+        root.setLevel(saved_root)
+        root.removeHandler(sink)
